@@ -302,7 +302,8 @@ func (fd *Client) deleteItemLocked(input *dynamodb.DeleteItemInput) (*dynamodb.D
 		return nil, mapKnownError(err)
 	}
 
-	if string(input.ReturnValues) == "ALL_OLD" {
+	// nothing was stored under the key: no Attributes at all, as for GetItem
+	if string(input.ReturnValues) == "ALL_OLD" && item != nil {
 		return &dynamodb.DeleteItemOutput{
 			Attributes: mapTypesToDynamoMapItem(item),
 		}, nil
